@@ -1,0 +1,25 @@
+//go:build verif
+// +build verif
+
+// Machine-checked contracts for this package (checked by /verif/govc).
+// Comment-only: no executable code.
+
+package query
+
+//@ import types "github.com/ovrclk/akash/x/market/types"
+
+// a parsed path names the owner given in its first component and the provider given in its fifth (both canonically
+// rendered) - C09 tenant scoping
+//@ func parseOrderPath
+//@   ensures result1 == nil ==> len(parts) >= 4 && validBech32(parts[0]) && result0.Owner == bech32(unbech32(parts[0]))
+//@        && result0.DSeq == atoi(parts[1]) && result0.GSeq == atoi(parts[2]) && result0.OSeq == atoi(parts[3])
+//@ func parseBidPath
+//@   ensures result1 == nil ==> len(parts) >= 5 && validBech32(parts[0]) && result0.Owner == bech32(unbech32(parts[0]))
+//@        && result0.DSeq == atoi(parts[1]) && result0.GSeq == atoi(parts[2]) && result0.OSeq == atoi(parts[3])
+//@        && validBech32(parts[4]) && result0.Provider == bech32(unbech32(parts[4]))
+//@ func ParseLeasePath
+//@   ensures result1 == nil ==> len(parts) >= 5 && validBech32(parts[0]) && result0.Owner == bech32(unbech32(parts[0]))
+//@        && result0.DSeq == atoi(parts[1]) && result0.GSeq == atoi(parts[2]) && result0.OSeq == atoi(parts[3])
+//@        && validBech32(parts[4]) && result0.Provider == bech32(unbech32(parts[4]))
+
+//@ property C09 := parseOrderPath#*, parseBidPath#*, ParseLeasePath#*
